@@ -98,27 +98,64 @@ def st_cfg(ctx, name, mode, shapes, nb, spec="Spec", props=True, emit=False):
     return cfg
 
 
+class Background:
+    """Run fn() in a thread; join() returns its value or re-raises its exception (ToolError stays ToolError)."""
+
+    def __init__(self, fn):
+        self.val, self.exc = None, None
+
+        def go():
+            try:
+                self.val = fn()
+            except BaseException as e:  # noqa
+                self.exc = e
+        self.t = threading.Thread(target=go)
+        self.t.start()
+
+    def join(self):
+        self.t.join()
+        if self.exc is not None:
+            raise self.exc
+        return self.val
+
+
+def parallel(fns):
+    bs = [Background(f) for f in fns]
+    return [b.join() for b in bs]
+
+
 def stream_tree_cases(ctx, mode, nb_gen, mc_shapes, nb_mc=2, workers=4):
-    """Model-check StreamTree on mc_shapes (safety + liveness, action coverage), then enumerate the cases
-    of every bound shape from the initial states.  Returns (cases, stats)."""
-    cfg = st_cfg(ctx, f"st-{mode}-mc.cfg", mode, mc_shapes, nb_mc)
-    r = tlc_must_pass(ctx, "proto/StreamTree", cfg=cfg, workers=workers, coverage=True, deadlock=False, tag=f"st-{mode}-mc", timeout=3000)
-    taken = r.action_counts()
-    need = ["SrcStep", "PipeStep", "BlockStep", "TaskStep", "TaskStop", "ClientDrop", "ClientTake", "XchgStep"]
-    never = [a for a in need if a in taken and taken[a][1] == 0]
-    if never:
-        raise ToolError(f"vacuity: StreamTree actions never taken: {never}")
+    """Enumerate the cases of every bound shape from the initial states of StreamTree (fast), and model-check
+    StreamTree on mc_shapes (safety + liveness, action coverage) in the background while the harness runs.
+    Returns (cases, bg) where bg.join() gives the statistics (or raises the specification-level ToolError)."""
+    def mc():
+        cfg = st_cfg(ctx, f"st-{mode}-mc.cfg", mode, mc_shapes, nb_mc)
+        r = tlc_must_pass(ctx, "proto/StreamTree", cfg=cfg, workers=workers, coverage=True, deadlock=False, tag=f"st-{mode}-mc", timeout=600 if ctx.quick else 3000)
+        taken = r.action_counts()
+        need = ["SrcStep", "PipeStep", "BlockStep", "TaskStep", "TaskStop", "ClientDrop", "ClientTake", "XchgStep"]
+        never = [a for a in need if a in taken and taken[a][1] == 0]
+        if never:
+            raise ToolError(f"vacuity: StreamTree actions never taken: {never}")
+        return {"mc_shapes": mc_shapes, "mc_nb": nb_mc, "states": r.distinct, "transitions": r.generated, "mc_wall_s": round(r.wall, 1)}
+    bg = Background(mc)
     gcfg = st_cfg(ctx, f"st-{mode}-gen.cfg", mode, ALL_SHAPES, nb_gen, spec="GenSpec", props=False, emit=True)
     g = tlc(ctx, "proto/StreamTree", cfg=gcfg, workers=1, deadlock=False, tag=f"st-{mode}-gen", timeout=900)
     if not g.ok:
         sys.stderr.write(g.out[-3000:])
+        bg.join()
         raise ToolError("StreamTree case enumeration failed")
     cases = tlc_cases(g.out)
     if not cases:
+        bg.join()
         raise ToolError("StreamTree enumerated no cases")
-    stats = {"mc_shapes": mc_shapes, "mc_nb": nb_mc, "states": r.distinct, "transitions": r.generated, "mc_wall_s": round(r.wall, 1),
-             "cases_enumerated": len(cases), "gen_nb": nb_gen}
-    return cases, stats
+    fin = bg.join
+
+    def join():
+        st = fin()
+        st.update({"cases_enumerated": len(cases), "gen_nb": nb_gen})
+        return st
+    bg.join = join
+    return cases, bg
 
 
 def pick_mc_shapes(ctx, extra=()):
@@ -139,56 +176,102 @@ def exec_of(b, rt="multi", poll="stream", pending_every=0, extra_settings=()):
     return e
 
 
-def run_items(ctx, items, datasets, tag, procs=3, hang_secs=60, timeout=3000):
-    """Run items in `procs` harness processes.  Returns {id: result}.  Items whose process died are re-run
-    one by one; a crash that repeats on the single item is returned as outcome 'abort'."""
+def run_items(ctx, items, datasets, tag, procs=3, hang_secs=60, timeout=None, item_cap=150, budget=None):
+    """Run items in `procs` harness processes and return {id: result}.
+
+    Bounds (machinery, never verdicts): every item is bounded inside the harness by the progress watchdog
+    (`hang_secs` without progress -> outcome "hang") and by a hard cap (`item_cap` seconds -> outcome "timeout");
+    after either the harness process exits (code 3) and a fresh process continues with the remaining items, so one
+    item cannot stall a chunk.  A process that dies is restarted after the killing item was confirmed alone
+    (outcome "abort" if it kills the process again).  Every process invocation has its own timeout derived from the
+    number of items, and the whole call has a wall budget; exceeding it is a ToolError (exit 2).  An item that hit
+    the hard cap is re-run once alone; a second timeout is a ToolError."""
     build("vlife")
     exe = os.path.join(HARNESS, "target", "debug", "vlife")
+    budget = budget or timeout or (900 if ctx.quick else 6000)
+    deadline = time.time() + budget
     chunks = [items[i::procs] for i in range(procs)]
     results = {}
     lock = threading.Lock()
     errors = []
+    seq = [0]
 
-    def work(ci, chunk, solo=False):
-        if not chunk:
-            return
-        inp, out = ctx.path(f"{tag}-{ci}.in.ndjson"), ctx.path(f"{tag}-{ci}.out.ndjson")
-        write_ndjson(inp, [{"dataset": n, "tables": t} for n, t in datasets.items()] + chunk)
+    def run_proc(ci, chunk):
+        """one harness process over `chunk`; returns (rc or None when killed, ids done)"""
+        with lock:
+            seq[0] += 1
+            k = seq[0]
+        inp, out = ctx.path(f"{tag}-{ci}-{k}.in.ndjson"), ctx.path(f"{tag}-{ci}-{k}.out.ndjson")
+        used = {it.get("dataset") for it in chunk}
+        write_ndjson(inp, [{"dataset": n, "tables": t} for n, t in datasets.items() if n in used] + chunk)
         if os.path.exists(out):
             os.remove(out)
         env = dict(os.environ, VERIF_SEED=str(ctx.seed), VERIF_TIER=ctx.tier, RUST_BACKTRACE="0")
+        # generous for normal items (a few 100 ms each), but finite: two capped items + per-item allowance
+        t_proc = min(max(30.0, deadline - time.time()), 2 * item_cap + 60 + 4 * len(chunk))
+        rc, err = None, ""
         try:
-            p = subprocess.run([exe, "run", "--in", inp, "--out", out, "--hang-secs", str(hang_secs)], cwd=ctx.work,
-                               stdout=subprocess.PIPE, stderr=subprocess.PIPE, text=True, timeout=timeout, env=env)
-            rc = p.returncode
+            p = subprocess.run([exe, "run", "--in", inp, "--out", out, "--hang-secs", str(hang_secs), "--item-cap-secs", str(item_cap)],
+                               cwd=ctx.work, stdout=subprocess.PIPE, stderr=subprocess.PIPE, text=True, timeout=t_proc, env=env)
+            rc, err = p.returncode, p.stderr[-1500:]
         except subprocess.TimeoutExpired:
-            errors.append(f"harness chunk {tag}-{ci} timed out after {timeout}s")
-            return
+            rc = None
         got = read_ndjson(out) if os.path.exists(out) else []
         with lock:
             for r in got:
                 results[r["id"]] = r
-        missing = [it for it in chunk if it["id"] not in {r["id"] for r in got}]
-        if rc != 0 or missing:
-            if solo:
+        return rc, {r["id"] for r in got}, err
+
+    def work(ci, chunk):
+        pending = list(chunk)
+        crashed = set()
+        while pending:
+            if time.time() > deadline:
+                errors.append(f"wall budget of {budget}s exceeded in chunk {tag}-{ci} ({len(pending)} items not run)")
+                return
+            rc, done, err = run_proc(ci, pending)
+            rest = [it for it in pending if it["id"] not in done]
+            if rc == 0 and not rest:
+                return
+            if rc == 3:                      # a hang/timeout item was reported; continue in a fresh process
+                pending = rest
+                continue
+            if not rest:
+                errors.append(f"harness chunk {tag}-{ci} exited {rc}: {err[-400:]}")
+                return
+            first = rest[0]
+            if rc is None:                   # the process itself exceeded its bound: the running item is a machinery timeout
                 with lock:
-                    results[chunk[0]["id"]] = {"id": chunk[0]["id"], "outcome": "abort", "rc": rc, "stderr": p.stderr[-1500:]}
-                return
-            if not missing:
-                errors.append(f"harness chunk {tag}-{ci} exited {rc}: {p.stderr[-500:]}")
-                return
-            # the first missing item is the one that killed the process: confirm alone, then continue with the rest
-            work(f"{ci}s{len(missing)}", [missing[0]], solo=True)
-            if len(missing) > 1:
-                work(f"{ci}r{len(missing)}", missing[1:])
+                    results[first["id"]] = {"id": first["id"], "outcome": "timeout", "where": "process"}
+                pending = rest[1:]
+                continue
+            # the process died on `first`: confirm alone, then go on with the others
+            if first["id"] in crashed:
+                pending = rest[1:]
+                continue
+            crashed.add(first["id"])
+            rc1, done1, err1 = run_proc(f"{ci}solo", [first])
+            if first["id"] not in done1:
+                with lock:
+                    results[first["id"]] = {"id": first["id"], "outcome": "abort" if rc1 is not None else "timeout", "rc": rc1, "stderr": err1}
+            pending = rest[1:]
 
     t = time.time()
-    ths = [threading.Thread(target=work, args=(i, c)) for i, c in enumerate(chunks)]
+    ths = [threading.Thread(target=work, args=(i, c)) for i, c in enumerate(chunks) if c]
     [x.start() for x in ths]
     [x.join() for x in ths]
-    log(f"vlife {tag}: {len(items)} items in {time.time()-t:.1f}s")
+    # machinery timeouts: once more alone; a repeated timeout is a tool error, never a verdict
+    slow = [it for it in items if results.get(it["id"], {}).get("outcome") == "timeout"]
+    for it in slow[:5]:
+        if time.time() > deadline:
+            break
+        rc, done, err = run_proc("retry", [it])
+    still = [it["id"] for it in items if results.get(it["id"], {}).get("outcome") == "timeout"]
+    log(f"vlife {tag}: {len(items)} items in {time.time()-t:.1f}s" + (f" ({len(slow)} hit the {item_cap}s item cap)" if slow else ""))
     if errors:
         raise ToolError("; ".join(errors[:3]))
+    if still:
+        raise ToolError(f"machinery timeout: item(s) {still[:3]} exceeded the hard cap of {item_cap}s twice (no verdict)")
     for it in items:
         r = results.get(it["id"])
         if r is None:
